@@ -78,7 +78,8 @@ def late_datagrams(mw, transports):
     return n, None
 
 
-def scenario(sh: Shard, seed, idx, action, t_crash, shape, regime, suspend):
+def scenario(sh: Shard, seed, idx, action, t_crash, shape, regime, suspend, case=None):
+    case = case or {}
     from vlib.aworld import ScenarioHang, Watchdog
     from vlib.man import ManWorld, Phase, make_manager_class
 
@@ -184,10 +185,33 @@ def scenario(sh: Shard, seed, idx, action, t_crash, shape, regime, suspend):
                     await asyncio.sleep(2.0)
                     mw.set_phase(Phase("blackout", 0))
                     spa_old = man._spa
-                    cmd = asyncio.ensure_future(spa_old.async_press(1) if int(t_crash) % 2 else spa_old.async_set_watercare(2))
+                    if case.get("sync_api"):
+                        # the plain (non-awaitable) API: the library starts the task itself
+                        before_ = set(asyncio.all_tasks())
+                        spa_old.press(1)
+                        made = [t_ for t_ in asyncio.all_tasks() if t_ not in before_]
+                        cmd = made[0] if made else asyncio.ensure_future(asyncio.sleep(0))
+                        out["sync_api_command"] = bool(made)
+                    else:
+                        cmd = asyncio.ensure_future(spa_old.async_press(1) if int(t_crash) % 2 else spa_old.async_set_watercare(2))
                     out["command_task"] = cmd.get_name()
                     await asyncio.sleep(1.0 + t_crash)
                     out["command_in_flight"] = not cmd.done()
+                elif shape == "wcerr-follow-up":
+                    # the spa reports a watercare error (a verb the simulator never sends); the client's
+                    # handler task asks for the mode again - and the spa has gone silent, so that request
+                    # is retrying when the action lands
+                    from vlib.rig import SPA_ID
+
+                    await mw.wait_state("CONNECTED", 60)
+                    await asyncio.sleep(2.0)
+                    spa_old = man._spa
+                    tr_ = spa_old._transport
+                    cid_ = spa_old.sendparms[3]
+                    mw.set_phase(Phase("blackout", 0))
+                    mw.w.net.inject(b"<PACKT><SRCCN>" + SPA_ID + b"</SRCCN><DESCN>" + cid_ + b"</DESCN><DATAS>WCERR</DATAS></PACKT>", mw.sim.addr, tr_)
+                    await asyncio.sleep(1.0 + t_crash)
+                    out["wcerr_follow_up_in_flight"] = any(d.dir == "c2s" and d.verb == "GETWC" and d.t > mw.w.now - 1.0 - t_crash - 0.01 for d in mw.w.net.dgrams)
                 elif shape == "in-consumer-callback":
                     # the action lands while a consumer task of the connection is suspended inside the
                     # client's event handler (RF-error events, handler sleeping 0.3-3 s)
@@ -223,7 +247,15 @@ def scenario(sh: Shard, seed, idx, action, t_crash, shape, regime, suspend):
                 before_tr = list(loop.transports)
                 before_tasks = lib_tasks(loop, ("SPA", "FACADE"))
                 if action == "reset":
-                    await man.async_reset()
+                    if case.get("via") == "clear-info":
+                        # "forget this spa": the reset made through async_set_spa_info(None, None, None)
+                        try:
+                            await man.async_set_spa_info(None, None, None)
+                        except Exception as e_:  # judged by what is left behind
+                            out["reset_call_raised"] = repr(e_)
+                        out["reset_via_clear_info"] = True
+                    else:
+                        await man.async_reset()
                     wat.retire_all()
                     for _ in range(3):
                         await asyncio.sleep(0)
@@ -339,6 +371,12 @@ def scenario(sh: Shard, seed, idx, action, t_crash, shape, regime, suspend):
             if slow and x.get("exc") is None:
                 m2 = ":pump-interleaved-reset" if pump_inside(x) else ""
                 sh.violation("C10:reset:tasks-alive" + m2, f"tasks of the connection that async_reset (task {x.get('task')}) let go of were still running {prompt:.1f} s after it returned: {sorted(set(slow))}", dict(wit, reset_task=x.get("task")))
+            # ... and none of them delivers an event to the client once the reset is over
+            gone = {e_["id"] for e_ in x.get("conn_tasks_before", []) if "id" in e_}
+            late_evs = [(round(e["t"] - x["t1"], 2), e["event"], e["task"]) for e in mw.events if e.get("task_id") in gone and e["t"] > x["t1"] + prompt and e["task"] != x.get("task")]
+            if late_evs and x.get("exc") is None:
+                m2 = ":pump-interleaved-reset" if pump_inside(x) else ""
+                sh.violation("C10:late-effect:abandoned-task-event" + m2, f"a task of the connection that async_reset let go of delivered events to the client after the reset was over: {late_evs[:3]}", dict(wit, reset_task=x.get("task")))
             left = [tr for tr in x.get("conn_endpoints_before", []) if tr.closed_at is None or tr.closed_at > x["t1"] + 0.5]
             if left:
                 # an earlier reset of the scenario that interleaved with the pump leaves an orphan attempt
@@ -359,6 +397,14 @@ def scenario(sh: Shard, seed, idx, action, t_crash, shape, regime, suspend):
             sh.count("actions_while_the_automatic_reset_was_inside_a_client_callback")
         if out.get("counted_command_in_flight"):
             sh.count("resets_with_a_command_in_flight")
+            if out.get("sync_api_command"):
+                sh.count("resets_with_a_plain_api_command_in_flight")
+        if out.get("wcerr_follow_up_in_flight"):
+            sh.count("resets_with_a_watercare_error_follow_up_in_flight")
+        if out.get("reset_via_clear_info"):
+            sh.count("resets_made_by_clearing_the_spa_details")
+            if out.get("reset_call_raised"):
+                sh.see("clear_info_reset_raised", out["reset_call_raised"][:80])
         if out.get("landed_at_step"):
             sh.count("actions_at_a_scheduler_step")
         if out.get("consumer_suspended_at_action"):
@@ -419,7 +465,7 @@ def cycles(sh: Shard, seed, n):
 def shard(sh: Shard, seed, cases, ncycles):
     for i, c in enumerate(cases):
         try:
-            scenario(sh, seed, c["idx"], c["action"], c["t"], c["shape"], c["regime"], c["suspend"])
+            scenario(sh, seed, c["idx"], c["action"], c["t"], c["shape"], c["regime"], c["suspend"], c)
         except Exception as e:
             d = describe_exc(e)
             if d["where"] == "repo":
@@ -497,6 +543,16 @@ def main(tier, seed):
                 for t in (0.0, 1.0, 2.0, 3.0):
                     cases.append({"idx": idx, "action": action, "t": t, "shape": "command-in-flight", "regime": regime, "suspend": "none"})
                     idx += 1
+                for t in (0.0, 2.0):
+                    cases.append({"idx": idx, "action": action, "t": t, "shape": "command-in-flight", "regime": regime, "suspend": "none", "sync_api": True})
+                    idx += 1
+                for t in (0.0, 1.5, 4.0):
+                    cases.append({"idx": idx, "action": action, "t": t, "shape": "wcerr-follow-up", "regime": regime, "suspend": "none"})
+                    idx += 1
+                # the reset made by clearing the spa details, at steady-state and handshake instants
+                for t in (2.5, 7.0, 12.0, 30.0):
+                    cases.append({"idx": idx, "action": action, "t": t, "shape": "plain", "regime": regime, "suspend": ["none", "tick"][idx % 2], "via": "clear-info"})
+                    idx += 1
             # every scheduler step from entering the context to the steady state (about 260 steps to
             # CONNECTED, then the first polls of the steady state)
             for k in range(0, 330, 3 if tier == "quick" else 1):
@@ -517,6 +573,7 @@ def main(tier, seed):
     run.need(run.counters.get("actions_at_endpoint_creation", 0) >= 4, "no reset/exit landed exactly at an endpoint creation")
     run.need(run.counters.get("actions_while_the_automatic_reset_was_inside_a_client_callback", 0) >= 4, "no reset/exit landed while the automatic reset was suspended inside a client callback")
     run.need(run.counters.get("resets_with_a_command_in_flight", 0) >= 3, "no reset landed while a client command was in flight")
+    run.need(run.counters.get("resets_with_a_plain_api_command_in_flight", 0) >= 1 and run.counters.get("resets_with_a_watercare_error_follow_up_in_flight", 0) >= 1 and run.counters.get("resets_made_by_clearing_the_spa_details", 0) >= 4, "plain-API command / watercare-error follow-up in flight at a reset, or resets made by clearing the spa details, not exercised")
     run.need(run.counters.get("actions_at_a_scheduler_step", 0) >= 200, "too few actions landed at an exact scheduler step")
     run.need(run.counters.get("actions_while_a_consumer_was_inside_a_client_callback", 0) >= 4, "no reset/exit landed while a consumer task was suspended inside a client callback")
     run.extra["crash_points"] = len(cases)
